@@ -6,6 +6,8 @@ open PK
 #print axioms C13_blinds_count
 #print axioms C13_later_rounds
 #print axioms C13_heads_up_button_first
+#print axioms C13_heads_up_tie_seat0
+#print axioms C13_heads_up_reversed
 #print axioms C13_low_card
 #print axioms C13_high_card
 #print axioms C13_low_hand
